@@ -171,7 +171,11 @@ theorem Q_connectFailed (w : World) (k : Nat) (h : Q w) : Q (connectFailed w k) 
 
 theorem Q_step (w : World) (e : Ev) (h : Q w) : Q (step w e) := by
   cases e with
-  | start => simp only [step]; split <;> exact h
+  | start => simp only [step]; split <;> (try split) <;> exact h
+  | waitElapsed => simp only [step]; split <;> exact h
+  | cancelCtx =>
+    simp only [step]; split; exact h
+    split <;> first | exact h | exact Q_progress _ h
   | app r => simp only [step]; split; exact h; exact Q_progress _ h
   | dialOk i => simp only [step]; split <;> exact h
   | dialFail => simp only [step]; split <;> (try split) <;> exact h
@@ -492,7 +496,7 @@ theorem retryLoop_of_fail (w : World) (k : Nat) (e h : Entry) (err : ErrKind) (r
       · exact h'.trans hs
     · exact ht.totalRetries
 
-/-! ### the task goroutine closes the connection, the reconnect loop dials again -/
+/-! ### the task goroutine closes the connection, the reconnect loop backs off, the timer makes it dial again -/
 
 /-- one iteration of the task goroutine -/
 theorem runTasks_succ (fuel : Nat) (w : World) (k : Nat) (t : Task) (rest : List Task)
@@ -567,78 +571,192 @@ theorem runTasks_flag (fuel : Nat) (w : World) (h : w.closeAfterTask = false)
             · next h2 => simpa using h2
     · rw [runTasks_blocked _ _ hg]; exact h
 
-theorem loopReact_redial (w : World) (k : Nat) (hp : w.phase = .up k) (hd : (getConn w k).alive = false)
+/-- the watched connection has ended, the client has not been stopped: the loop starts backing off
+    (the wait is logged; DialContext is not called before the timer fires) -/
+theorem loopReact_backoff (w : World) (k : Nat) (hp : w.phase = .up k) (hd : (getConn w k).alive = false)
     (hs : w.stopped = false) :
-    loopReact w = { w with phase := .dialGate, waits := w.waits ++ [w.waitExp], waitExp := w.waitExp + 1,
-                           dials := w.dials + 1 } := by
+    loopReact w = { w with phase := .backoff, waits := w.waits ++ [w.waitExp], waitExp := w.waitExp + 1 } := by
   unfold loopReact
   simp only [hp, hd, hs, Bool.false_eq_true, if_false]
 
-/-! ### after Disconnect the reconnect loop never dials again (true of the refined model) -/
+/-- the back-off timer fires: the loop calls DialContext again; nothing else changes -/
+theorem waitElapsed_step (w : World) (h : w.phase = .backoff) :
+    step w .waitElapsed = { w with phase := .dialGate, dials := w.dials + 1 } := by
+  simp only [step, h, if_true]
 
-theorem progress_stopped (w : World) (hs : w.stopped = true) :
-    (progress w).dials = w.dials ∧ (progress w).stopped = true := by
+/-- outside the back-off the timer event has no effect -/
+theorem waitElapsed_noop (w : World) (h : w.phase ≠ .backoff) : step w .waitElapsed = w := by
+  simp only [step, h, if_false]
+
+/-- once ReconnectClient.Connect has returned, the loop runs on context.Background(): cancelling the
+    context given to Connect has no effect -/
+theorem cancelCtx_noop (w : World) (h : w.connectReturned.isSome = true) : step w .cancelCtx = w := by
+  simp only [step, h, or_true, if_true]
+
+/-! ### `progress` (task goroutine, then the loop's reaction) never calls DialContext and changes
+    neither `stopped` nor what ReconnectClient.Connect returned -/
+
+theorem progress_stopped (w : World) :
+    (progress w).dials = w.dials ∧ (progress w).stopped = w.stopped ∧
+    (progress w).connectReturned = w.connectReturned := by
   unfold progress
   have hv := view_runTasks (w.taskQ.length + 1) w
   generalize runTasks (w.taskQ.length + 1) w = w1 at hv
   simp only [view, View.mk.injEq] at hv
-  obtain ⟨_, _, _, _, _, p6, p7, _⟩ := hv
+  obtain ⟨_, _, _, _, _, p6, p7, _, _, _, _, _, p13, _⟩ := hv
   unfold loopReact
   split
   · split
-    · exact ⟨p6, p7.trans hs⟩
-    · rw [if_pos (p7.trans hs)]; exact ⟨p6, p7.trans hs⟩
-  · exact ⟨p6, p7.trans hs⟩
+    · exact ⟨p6, p7, p13⟩
+    · split <;> exact ⟨p6, p7, p13⟩
+  · exact ⟨p6, p7, p13⟩
 
-theorem deliverInbound_dials (w : World) (k m q : Nat) : (deliverInbound w k m q).dials = w.dials := by
+/-- the phase after `progress`: unchanged, or the loop has exited, or (only if the client has not been
+    stopped) it has started to back off from `.up` -/
+theorem progress_phase (w : World) :
+    (progress w).phase = w.phase ∨ (progress w).phase = .exited ∨
+    ((progress w).phase = .backoff ∧ w.stopped = false ∧ ∃ k, w.phase = .up k) := by
+  unfold progress
+  have hv := view_runTasks (w.taskQ.length + 1) w
+  generalize runTasks (w.taskQ.length + 1) w = w1 at hv
+  simp only [view, View.mk.injEq] at hv
+  obtain ⟨_, _, _, _, p5, _, p7, _⟩ := hv
+  unfold loopReact
+  split
+  · next k hk =>
+    split
+    · exact Or.inl p5
+    · split
+      · exact Or.inr (Or.inl rfl)
+      · next hns =>
+        refine Or.inr (Or.inr ⟨rfl, ?_, k, p5.symm.trans hk⟩)
+        rw [← p7]; simpa using hns
+  · exact Or.inl p5
+
+theorem deliverInbound_dials (w : World) (k m q : Nat) :
+    (deliverInbound w k m q).dials = w.dials ∧ (deliverInbound w k m q).connectReturned = w.connectReturned := by
   unfold deliverInbound
   dsimp only
   split
-  · rfl
+  · exact ⟨rfl, rfl⟩
   · split <;> split <;> simp [logPkt, setConn]
 
-theorem deliverAll_dials (k : Nat) (inb : List (Nat × Nat)) (w : World) : (deliverAll w k inb).dials = w.dials := by
+theorem deliverAll_dials (k : Nat) (inb : List (Nat × Nat)) (w : World) :
+    (deliverAll w k inb).dials = w.dials ∧ (deliverAll w k inb).connectReturned = w.connectReturned := by
   induction inb generalizing w with
-  | nil => rfl
-  | cons a rest ih => exact (ih (deliverInbound w k a.1 a.2)).trans (deliverInbound_dials w k a.1 a.2)
+  | nil => exact ⟨rfl, rfl⟩
+  | cons a rest ih =>
+    exact ⟨(ih (deliverInbound w k a.1 a.2)).1.trans (deliverInbound_dials w k a.1 a.2).1,
+      (ih (deliverInbound w k a.1 a.2)).2.trans (deliverInbound_dials w k a.1 a.2).2⟩
 
-theorem afterConnack_stopped (w : World) (sp : Bool) (k : Nat) (hs : w.stopped = true) :
-    (afterConnack w sp k).dials = w.dials ∧ (afterConnack w sp k).stopped = true := by
+theorem afterConnack_stopped (w : World) (sp : Bool) (k : Nat) :
+    (afterConnack w sp k).dials = w.dials ∧ (afterConnack w sp k).stopped = w.stopped ∧
+    (afterConnack w sp k).connectReturned.isSome = true := by
   unfold afterConnack
   dsimp only
-  have hc : ¬ (w.initialized = true ∧ (¬ sp = true ∨ w.cfg.always = true) ∧ ¬ w.stopped = true) :=
-    fun h => h.2.2 hs
-  rw [if_neg hc]; simp [hs]
+  by_cases hs : w.stopped = true
+  · have hc : ¬ (w.initialized = true ∧ (¬ sp = true ∨ w.cfg.always = true) ∧ ¬ w.stopped = true) :=
+      fun h => h.2.2 hs
+    rw [if_neg hc]; simp [hs]; cases w.connectReturned <;> simp
+  · by_cases hc : w.initialized = true ∧ (¬ sp = true ∨ w.cfg.always = true) ∧ ¬ w.stopped = true
+    · rw [if_pos hc]; simp [pushTask, hs]; cases w.connectReturned <;> simp
+    · rw [if_neg hc]; simp [pushTask, hs]; cases w.connectReturned <;> simp
 
-theorem step_stopped (w : World) (e : Ev) (hs : w.stopped = true) (hp : w.phase ≠ .idle) :
-    (step w e).dials = w.dials ∧ (step w e).stopped = true ∧ (step w e).phase ≠ .idle := by
-  have hph : ∀ W : World, W.phase ≠ .idle → (progress W).phase ≠ .idle := by
-    intro W hW h
-    unfold progress loopReact at h
-    have hv := view_runTasks (W.taskQ.length + 1) W
-    generalize runTasks (W.taskQ.length + 1) W = w1 at hv h
-    simp only [view, View.mk.injEq] at hv
-    obtain ⟨_, _, _, _, p5, _⟩ := hv
-    split at h
-    · split at h
-      · rw [h] at p5; exact hW p5.symm
-      · split at h <;> cases h
-    · rw [h] at p5; exact hW p5.symm
+/-- only Disconnect stops the client, and nothing un-stops it -/
+theorem step_stopped_eq (w : World) (e : Ev) :
+    (step w e).stopped = match e with | .disconnect => true | _ => w.stopped := by
   cases e with
-  | start => simp only [step]; rw [if_neg hp]; exact ⟨rfl, hs, hp⟩
-  | app r => simp only [step]; rw [if_pos hs]; exact ⟨rfl, hs, hp⟩
+  | start => simp only [step]; split <;> (try split) <;> rfl
+  | app r => simp only [step]; split; rfl; exact (progress_stopped _).2.1
+  | dialOk i => simp only [step]; split <;> rfl
+  | dialFail => simp only [step]; split <;> (try split) <;> rfl
+  | waitElapsed => simp only [step]; split <;> rfl
+  | cancelCtx =>
+    simp only [step]; split; rfl
+    split <;> first | rfl | exact (progress_stopped _).2.1
+  | connackOk sp inb =>
+    dsimp only
+    cases hph : w.phase with
+    | connackGate k =>
+      rw [connackOk_step w k sp inb hph, (progress_stopped _).2.1, (afterConnack_stopped _ sp k).2.1]
+      exact deliverAll_stopped k inb _
+    | _ => simp only [step, hph]
+  | connackRefused =>
+    simp only [step]; split
+    · exact (progress_stopped _).2.1.trans (connectFailed_frame _ _).2.2.2.2.2.2.2.2.1
+    · rfl
+  | connackNever =>
+    simp only [step]; split
+    · split
+      · exact (progress_stopped _).2.1.trans (connectFailed_frame _ _).2.2.2.2.2.2.2.2.1
+      · rfl
+    · rfl
+  | peerClose =>
+    simp only [step]; split
+    · exact (progress_stopped _).2.1
+    · rfl
+  | inbound m q =>
+    simp only [step]; split
+    · exact deliverInbound_stopped _ _ _ _
+    · rfl
+  | handle h => simp only [step]; split <;> rfl
+  | disconnect =>
+    simp only [step]; split
+    · next h => exact h
+    · split <;> exact (progress_stopped _).2.1
+
+/-! ### after Disconnect the reconnect loop never dials again
+
+  A stopped client is never in `.backoff` (`stopped_not_backoff` below: every failure path tests
+  `stopped` before backing off, and Disconnect releases the back-off select), so no `.waitElapsed`
+  can make it dial. A DialContext call in flight when Disconnect arrives (`.dialGate`) is not a new
+  call: `dials` counts calls when they start. -/
+
+theorem step_stopped (w : World) (e : Ev) (hs : w.stopped = true) (hb : w.phase ≠ .backoff) :
+    (step w e).stopped = true ∧ (step w e).phase ≠ .backoff ∧
+    (w.phase ≠ .idle → (step w e).dials = w.dials ∧ (step w e).phase ≠ .idle) := by
+  have key : ∀ W : World, W.stopped = true → W.phase ≠ .backoff → W.dials = w.dials →
+      (w.phase ≠ .idle → W.phase ≠ .idle) →
+      (progress W).stopped = true ∧ (progress W).phase ≠ .backoff ∧
+      (w.phase ≠ .idle → (progress W).dials = w.dials ∧ (progress W).phase ≠ .idle) := by
+    intro W h1 h2 h3 h4
+    obtain ⟨b1, b2, _⟩ := progress_stopped W
+    refine ⟨b2.trans h1, ?_, fun hp => ⟨b1.trans h3, ?_⟩⟩
+    · rcases progress_phase W with h | h | h
+      · rw [h]; exact h2
+      · rw [h]; simp
+      · rw [h1] at h; cases h.2.1
+    · rcases progress_phase W with h | h | h
+      · rw [h]; exact h4 hp
+      · rw [h]; simp
+      · rw [h.1]; simp
+  have same : (w.stopped = true ∧ w.phase ≠ .backoff ∧ (w.phase ≠ .idle → w.dials = w.dials ∧ w.phase ≠ .idle)) :=
+    ⟨hs, hb, fun hp => ⟨rfl, hp⟩⟩
+  cases e with
+  | start =>
+    simp only [step]; split
+    · exact same
+    · next hp => split <;> exact ⟨hs, by simp, fun h => absurd h hp⟩
+  | app r => simp only [step]; rw [if_pos hs]; exact same
   | dialOk i =>
     simp only [step]; split
-    · exact ⟨rfl, hs, hp⟩
-    · exact ⟨rfl, hs, by simp⟩
+    · exact same
+    · exact ⟨hs, by simp, fun _ => ⟨rfl, by simp⟩⟩
   | dialFail =>
     simp only [step]; split
-    · exact ⟨rfl, hs, hp⟩
-    · first
-        | exact ⟨rfl, hs, by simp⟩
-        | (split
-           · exact ⟨rfl, hs, by simp⟩
-           · next h => exact absurd hs h)
+    · exact same
+    · (try rw [if_pos hs]); exact ⟨hs, by simp, fun _ => ⟨rfl, by simp⟩⟩
+  | waitElapsed => simp only [step]; rw [if_neg hb]; exact same
+  | cancelCtx =>
+    simp only [step]; split
+    · exact same
+    · split
+      · exact same
+      · next h => exact absurd h hb
+      · exact ⟨hs, by simp, fun _ => ⟨rfl, by simp⟩⟩
+      · exact key _ hs (by simp) rfl (fun _ => by simp)
+      · exact same
+      · exact same
   | connackOk sp inb =>
     cases hph' : w.phase with
     | connackGate k =>
@@ -646,42 +764,184 @@ theorem step_stopped (w : World) (e : Ev) (hs : w.stopped = true) (hp : w.phase 
       have hst : (deliverAll { setConn w k { getConn w k with connected := true } with
           broker := if sp then w.broker else w.broker.clearSession } k inb).stopped = true :=
         (deliverAll_stopped k inb _).trans hs
-      obtain ⟨a1, a2⟩ := afterConnack_stopped _ sp k hst
-      obtain ⟨b1, b2⟩ := progress_stopped _ a2
-      refine ⟨b1.trans (a1.trans (deliverAll_dials k inb _)), b2, hph _ ?_⟩
-      rw [(afterConnack_frame _ sp k).2.2.2.1, if_pos hst]; simp
+      obtain ⟨a1, a2, _⟩ := afterConnack_stopped (deliverAll { setConn w k { getConn w k with connected := true } with
+          broker := if sp then w.broker else w.broker.clearSession } k inb) sp k
+      have hph : (afterConnack (deliverAll { setConn w k { getConn w k with connected := true } with
+          broker := if sp then w.broker else w.broker.clearSession } k inb) sp k).phase = .exited := by
+        rw [(afterConnack_frame _ sp k).2.2.2.1, if_pos hst]
+      have := key _ (a2.trans hst) (by rw [hph]; simp) (a1.trans (deliverAll_dials k inb _).1)
+        (fun _ => by rw [hph]; simp)
+      rw [hph'] at this; exact this
     | _ =>
       rw [show step w (.connackOk sp inb) = w by simp only [step, hph']]
-      exact ⟨rfl, hs, hp⟩
+      exact ⟨hs, hb, fun hp => ⟨rfl, by rw [hph']; exact hp⟩⟩
   | connackRefused =>
     simp only [step]; split
     · next k _ =>
       obtain ⟨_, _, _, _, _, _, _, c8, c9, c10⟩ := connectFailed_frame w k
-      obtain ⟨b1, b2⟩ := progress_stopped _ (c9.trans hs)
-      exact ⟨b1.trans (by rw [c10, if_pos hs]), b2, hph _ (by rw [c8, if_pos hs]; simp)⟩
-    · exact ⟨rfl, hs, hp⟩
+      rw [if_pos hs] at c8
+      exact key _ (c9.trans hs) (by rw [c8]; simp) c10 (fun _ => by rw [c8]; simp)
+    · exact same
   | connackNever =>
     simp only [step]; split
     · next k _ =>
       split
       · obtain ⟨_, _, _, _, _, _, _, c8, c9, c10⟩ := connectFailed_frame w k
-        obtain ⟨b1, b2⟩ := progress_stopped _ (c9.trans hs)
-        exact ⟨b1.trans (by rw [c10, if_pos hs]), b2, hph _ (by rw [c8, if_pos hs]; simp)⟩
-      · exact ⟨rfl, hs, hp⟩
-    · exact ⟨rfl, hs, hp⟩
+        rw [if_pos hs] at c8
+        exact key _ (c9.trans hs) (by rw [c8]; simp) c10 (fun _ => by rw [c8]; simp)
+      · exact same
+    · exact same
   | peerClose =>
     simp only [step]; split
-    · next k _ =>
-      obtain ⟨b1, b2⟩ := progress_stopped (kill w k) hs
-      exact ⟨b1, b2, hph _ hp⟩
-    · exact ⟨rfl, hs, hp⟩
+    · next k _ => exact key (kill w k) hs hb rfl id
+    · exact same
   | inbound m q =>
     simp only [step]; split
     · next k _ =>
-      exact ⟨deliverInbound_dials w k m q, (deliverInbound_stopped w k m q).trans hs,
-        by rw [(deliverInbound_frame w k m q).2.2.2.2.2]; exact hp⟩
-    · exact ⟨rfl, hs, hp⟩
-  | handle h => simp only [step]; split <;> exact ⟨rfl, hs, hp⟩
-  | disconnect => simp only [step]; rw [if_pos hs]; exact ⟨rfl, hs, hp⟩
+      have hf := (deliverInbound_frame w k m q).2.2.2.2.2
+      exact ⟨(deliverInbound_stopped w k m q).trans hs, by rw [hf]; exact hb,
+        fun hp => ⟨(deliverInbound_dials w k m q).1, by rw [hf]; exact hp⟩⟩
+    · exact same
+  | handle h => simp only [step]; split <;> exact same
+  | disconnect => simp only [step]; rw [if_pos hs]; exact same
+
+/-- `stopped → phase ≠ .backoff` is preserved by every event -/
+theorem step_stopped_not_backoff (w : World) (e : Ev) (hi : w.stopped = true → w.phase ≠ .backoff) :
+    (step w e).stopped = true → (step w e).phase ≠ .backoff := by
+  intro h
+  cases hs : w.stopped with
+  | true => exact (step_stopped w e hs (hi hs)).2.1
+  | false =>
+    have he := step_stopped_eq w e
+    rw [h] at he
+    cases e <;> simp only [hs] at he <;> try (cases he)
+    simp only [step, hs, Bool.false_eq_true, if_false]
+    split
+    · simp
+    · simp
+    · next h1 h2 => exact h2
+
+theorem stopped_not_backoff (s : Script) : (exec s).stopped = true → (exec s).phase ≠ .backoff := by
+  obtain ⟨cfg, method, faults, evs⟩ := s
+  induction evs using snoc_induction with
+  | nil => intro h; simp [exec, init] at h
+  | snoc evs e ih => rw [exec_snoc]; exact step_stopped_not_backoff _ _ ih
+
+/-! ### while a connection is up, ReconnectClient.Connect has returned (so `.cancelCtx` is a no-op) -/
+
+def UpReturned (w : World) : Prop := ∀ k, w.phase = .up k → w.connectReturned.isSome = true
+
+theorem UpReturned_progress (w : World) (h : UpReturned w) : UpReturned (progress w) := by
+  intro k hk
+  rw [(progress_stopped w).2.2]
+  rcases progress_phase w with h' | h' | h'
+  · exact h k (h'.symm.trans hk)
+  · rw [h'] at hk; cases hk
+  · rw [h'.1] at hk; cases hk
+
+theorem step_UpReturned (w : World) (e : Ev) (hi : UpReturned w) : UpReturned (step w e) := by
+  cases e with
+  | start =>
+    simp only [step]; split
+    · exact hi
+    · split <;> (intro k h; cases h)
+  | app r =>
+    simp only [step]; split
+    · exact hi
+    · exact UpReturned_progress _ hi
+  | dialOk i =>
+    simp only [step]; split
+    · exact hi
+    · intro k h; cases h
+  | dialFail =>
+    simp only [step]; split
+    · exact hi
+    · split <;> (intro k h; cases h)
+  | waitElapsed =>
+    simp only [step]; split
+    · intro k h; cases h
+    · exact hi
+  | cancelCtx =>
+    simp only [step]; split
+    · exact hi
+    · split
+      · exact hi
+      · intro k h; cases h
+      · intro k h; cases h
+      · refine UpReturned_progress _ ?_; intro k h; cases h
+      · exact hi
+      · exact hi
+  | connackOk sp inb =>
+    cases hph : w.phase with
+    | connackGate k =>
+      rw [connackOk_step w k sp inb hph]
+      refine UpReturned_progress _ ?_
+      intro j _
+      exact (afterConnack_stopped _ sp k).2.2
+    | _ => simp only [step, hph]; exact hi
+  | connackRefused =>
+    simp only [step]; split
+    · next k _ =>
+      refine UpReturned_progress _ ?_
+      intro j h
+      rw [(connectFailed_frame w k).2.2.2.2.2.2.2.1] at h
+      split at h <;> cases h
+    · exact hi
+  | connackNever =>
+    simp only [step]; split
+    · next k _ =>
+      split
+      · refine UpReturned_progress _ ?_
+        intro j h
+        rw [(connectFailed_frame w k).2.2.2.2.2.2.2.1] at h
+        split at h <;> cases h
+      · exact hi
+    · exact hi
+  | peerClose =>
+    simp only [step]; split
+    · exact UpReturned_progress _ hi
+    · exact hi
+  | inbound m q =>
+    simp only [step]; split
+    · next k _ =>
+      intro j h
+      rw [(deliverInbound_frame w k m q).2.2.2.2.2] at h
+      rw [(deliverInbound_dials w k m q).2]
+      exact hi j h
+    · exact hi
+  | handle h => simp only [step]; split <;> exact hi
+  | disconnect =>
+    simp only [step]; split
+    · exact hi
+    · have hW : UpReturned (progress { pushTask w .disconnect with stopped := true }) :=
+        UpReturned_progress _ hi
+      split
+      · intro k h; cases h
+      · intro k h; cases h
+      · exact hW
+
+theorem exec_UpReturned (s : Script) : UpReturned (exec s) := by
+  obtain ⟨cfg, method, faults, evs⟩ := s
+  induction evs using snoc_induction with
+  | nil => intro k h; simp [exec, init] at h
+  | snoc evs e ih => rw [exec_snoc]; exact step_UpReturned _ _ ih
+
+/-- Disconnect while the loop is backing off releases the back-off select: the loop exits without
+    another DialContext call -/
+theorem disconnect_in_backoff (w : World) (hp : w.phase = .backoff) (hs : w.stopped = false) :
+    (step w .disconnect).phase = .exited ∧ (step w .disconnect).dials = w.dials ∧
+    (step w .disconnect).stopped = true := by
+  refine ⟨?_, ?_, step_stopped_eq w .disconnect⟩
+  · simp only [step, hs, Bool.false_eq_true, if_false]
+    split
+    · rfl
+    · rfl
+    · next h1 h2 =>
+      rcases progress_phase { pushTask w .disconnect with stopped := true } with h | h | h
+      · exact absurd (h.trans hp) h2
+      · exact h
+      · exact absurd h.1 h2
+  · simp only [step, hs, Bool.false_eq_true, if_false]
+    split <;> exact (progress_stopped _).1
 
 end Mqtt.Retry
